@@ -64,6 +64,7 @@ static int t_alg, t_dns, t_laddr, t_cto, t_dnsto, t_probe, t_len;
 static int t_list[40], t_pol[4], t_used[4];
 static int64_t g_cto_ns, g_dnsto_ns;
 static char t_desc[200];
+static int t_cap_hit = -1;
 
 /* results of the client */
 static int g_cli_done, g_connected, g_errno;
@@ -170,6 +171,7 @@ static void choose_table(const char *params)
         /* the 32-entry cap of the result: 31 x v4a, then v4b at position capidx, v4a behind it */
         int total = param_int(params, "total", 33), hit = param_int(params, "hit", 31);
         t_len = total > 40 ? 40 : total;
+        t_cap_hit = hit;
         for (int i = 0; i < t_len; i++)
             t_list[i] = i == hit ? 1 : 0;
         t_used[0] = t_used[1] = 1;
@@ -209,7 +211,7 @@ static void choose_table(const char *params)
        can reach it too) unless the slice says otherwise */
     (void)any_silent;
     t_cto = dns_ok ? pick(ctos, 2, "T:cto") : 0;
-    t_dnsto = (t_dns == DNS_LATE || t_dns == DNS_SILENT) ? pick(dnstos, 2, "T:dnsto") : 0;
+    t_dnsto = (t_dns == DNS_LATE || t_dns == DNS_SILENT || t_dns == DNS_FAIL_LATE) ? pick(dnstos, 2, "T:dnsto") : 0;
     g_cto_ns = t_cto ? NS / 2 : 3 * NS;
     g_dnsto_ns = t_dnsto ? 2 * NS : 10 * NS;
 
@@ -278,6 +280,7 @@ static void world_setup(void)
         /* real XCM servers: one per family; v4 wildcard, v6 on ::1 (naddr = 3) */
         struct xcm_attr_map *at = xcm_attr_map_create();
         xcm_attr_map_add_bool(at, "xcm.blocking", false);
+        xcm_attr_map_add_str(at, "xcm.service", "any");
         const char *stp = !strcmp(g_tp, "utls") ? "tls" : g_tp;
         char addr[96];
         if (acc4) {
@@ -461,13 +464,14 @@ static void cli_task(void *arg)
     unsigned char buf[16];
     uint64_t prev_env = 0;
     const char *op = PRN[t_probe];
+    int probe = t_probe, sent = 0;
     int cond = t_probe == PR_FINISH ? 0 : (t_probe == PR_SEND ? XCM_SO_SENDABLE : XCM_SO_RECEIVABLE);
     for (;;) {
         mc_sched_point(op);
         int rc;
-        if (t_probe == PR_FINISH)
+        if (probe == PR_FINISH)
             rc = API("xcm_finish", 1, xcm_finish(s));
-        else if (t_probe == PR_SEND)
+        else if (probe == PR_SEND)
             rc = API("xcm_send", 1, xcm_send(s, "y", 1));
         else
             rc = API("xcm_receive", 1, xcm_receive(s, buf, sizeof buf));
@@ -475,12 +479,21 @@ static void cli_task(void *arg)
         g_calls++;
         note();
         mc_observe("%s -> %d %s", op, rc, rc < 0 ? ename(err) : "");
-        if (rc > 0 || (rc == 0 && t_probe != PR_RECEIVE)) {
+        if (rc >= 0 && probe == PR_SEND) {
+            /* accepted: a messaging transport may only have queued it; the connection is proven
+               (or the failure reported) by the xcm_finish calls that flush it */
+            sent = 1;
+            probe = PR_FINISH;
+            cond = 0;
+            op = "xcm_finish";
+            continue;
+        }
+        if (rc > 0 || (rc == 0 && probe != PR_RECEIVE)) {
             const char *r = API("xcm_remote_addr", 1, xcm_remote_addr(s));
             snprintf(g_remote, sizeof g_remote, "%s", r ? r : "(null)");
             const char *l = API("xcm_local_addr", 1, xcm_local_addr(s));
             snprintf(g_local, sizeof g_local, "%s", l ? l : "(null)");
-            cli_done(1, 0, op);
+            cli_done(1, 0, sent ? "xcm_send+xcm_finish" : op);
             break;
         }
         if (rc == 0) {          /* end of stream before any data: the peer is a harness listener, never */
@@ -669,7 +682,7 @@ static void oracle_conn(enum mc_end end)
     }
 
     /* ---- time bounds ---- */
-    int64_t dns_part = (t_dns == DNS_LATE || t_dns == DNS_SILENT) ? g_dnsto_ns : 0;
+    int64_t dns_part = (t_dns == DNS_LATE || t_dns == DNS_SILENT || t_dns == DNS_FAIL_LATE) ? g_dnsto_ns : 0;
     int64_t upper = dns_part + (int64_t)N * g_cto_ns + NS / 5 + SLACK_NS;
     if (el > upper) {
         snprintf(sig, sizeof sig, "C13/time-bound/late/alg=%s/dns=%s/tp=%s", ALGN[t_alg], DNSN[t_dns], g_tp);
@@ -702,6 +715,13 @@ static void oracle_conn(enum mc_end end)
                  t_desc);
         } else
             mc_count(2, 1);
+        return;
+    }
+
+    if (t_cap_hit >= 32 && g_connected && ridx == 1) {
+        /* beyond the documented 32-entry cap of the result: either behaviour is accepted */
+        mc_info("C13/info/beyond-32-entries", "connected to entry #%d of a %d-entry answer (the result is documented to be cut at 32)",
+                t_cap_hit, t_len);
         return;
     }
 
@@ -827,6 +847,11 @@ static void scenario_server(const char *params)
     if (s_mode > 0)
         env_dns_set("srv.verif.test", ips, 1, M[s_mode]);
     snprintf(t_desc, sizeof t_desc, "xcm_server dns=%s", SMODE[s_mode]);
+    mc_count(0, 1);
+    if (param_int(params, "count", 0)) {
+        mc_outcome("%s", t_desc);
+        return;
+    }
     mc_task_create("srv", server_task, (void *)params);
     enum mc_end end = mc_run(400);
     char sig[200];
@@ -890,7 +915,7 @@ static void scenario(const char *params)
     mc_task_create("cli", cli_task, NULL);
     if (g_need_srv)
         mc_task_create("peer", srv_task, NULL);
-    enum mc_end end = mc_run((int)param_int(params, "horizon", 1500));
+    enum mc_end end = mc_run((int)param_int(params, "horizon", 600));
     sample();
     oracle_conn(end);
     mc_outcome("%s tp=%s -> %s%s%s by=%s t=+%lldms conn=%d bind=%d", t_desc, g_tp,
